@@ -234,7 +234,7 @@ ImplCopy(S, o, d, s, dIsView, sIsView, mode) ==      \* mode: "to" | "from" | "p
   LET r == CopyLoop(d, s, o.n, S.mem, FALSE)
       extract == mode \in {"pto", "pfrom"}
       P0 == [Base(S) EXCEPT !.ret = o.n - r.left, !.mem = r.mem, !.oob = r.oob, !.dv = o.w,
-                            !.slot0 = (d = <<>> /\ dIsView) \/ (s = <<>> /\ sIsView /\ ~extract)]
+                            !.slot0 = FALSE]
   IN IF mode = "pto" THEN WithFront(S, P0, r.s)
      ELSE IF mode = "pfrom" THEN [P0 EXCEPT !.dv = r.s]
      ELSE P0
@@ -256,7 +256,7 @@ Impl(S, o) ==
     [] o.op = "xbc" -> ImplCont(S, o.n, FALSE)
     [] o.op = "slice" ->
          IF ~S.own THEN LET r == SliceV(S.v, o.n, o.off, o.N, o.w) IN [B EXCEPT !.ret = r.ret, !.dv = r.dv]
-         ELSE IF o.n = 0 THEN [B EXCEPT !.dv = o.w]                                           \* iovector.h:753
+         ELSE IF o.n = 0 \/ S.v = <<>> THEN [B EXCEPT !.dv = o.w]                                           \* iovector.h:753
          ELSE IF o.N > 0 THEN LET r == SliceV(S.v, o.n, o.off, o.N, o.w) IN [B EXCEPT !.ret = r.ret, !.dv = r.dv]
          ELSE LET a == Alloc(B, S, SLOT * Len(S.v), SLOT * Len(S.v), TRUE) IN
               IF ~a.ok THEN B
@@ -346,8 +346,12 @@ Judge(S, o, P) ==
           P_(P.ret = x.ret, "wrong count") \cup P_(F2 = x.rest, "vector does not denote the remaining bytes") \cup nomem
     [] o.op \in {"xfb", "xbb"} -> LET x == IF o.op = "xfb" THEN RefExtractFront(F, o.n) ELSE RefExtractBack(F, o.n) IN
           P_(P.ret = x.ret, "wrong count") \cup P_(F2 = x.rest, "vector does not denote the remaining bytes")
-          \cup P_(MemIs(S, P, WriteAddrs(S.mem, Take(Dbuf, x.ret), Content(S.mem, x.out))),
-                  "buf[0..ret) is not the extracted bytes / bytes outside it changed")
+          \* extract_front(bytes, buf) fills buf[0..ret); extract_back(bytes, buf) fills the END of the `bytes`-sized buffer,
+          \* buf[bytes-ret..bytes) -- that placement is pinned by the repository's own test (common/test/test.cpp
+          \* iovector_view.test3) and is therefore taken as the operation's definition, see DESIGN.md (F7).
+          \cup P_(MemIs(S, P, WriteAddrs(S.mem, IF o.op = "xfb" THEN Take(Dbuf, x.ret) ELSE Take(Drop(Dbuf, o.n - x.ret), x.ret),
+                                          Content(S.mem, x.out))),
+                  "buf does not hold the extracted bytes where the operation puts them / bytes outside changed")
     [] o.op = "xfv" -> subvec(RefExtractFront(F, o.n), SpanF(S.v, o.n), TRUE)
     [] o.op = "xbv" -> subvec(RefExtractBack(F, o.n), SpanB(S.v, o.n), FALSE)
     [] o.op = "xfc" -> cont(RefExtractFront(F, o.n), TRUE)
